@@ -137,7 +137,7 @@ def fieldOf (fs : List String) (k : String) : String :=
 def peerSeesOk (r : Result Content) : Option Bool :=
   match r with
   | .ok _ => some true
-  | .error m => some (respError true [] m).isEmpty
+  | .error m => some (respError true [1] m).isEmpty   -- [1]: every call site passes a non-empty summary
   | .panic => none
 
 /-- (expected result line, no refusal was reported to the peer as success);
@@ -155,7 +155,9 @@ def siteExpected (m : Manager Content) (u p : Str) (x : String) (impl : String) 
   match rL.1 with
   | .panic => none
   | .error msg =>
-    if msg.isEmpty then some (fin "ok" "closed" "-" "-" "-" wL, false)   -- told "ok", then dropped
+    -- the refusal is reported through `respError` (never empty since /repo fix e4ec556; with the
+    -- old `respErrorOld` an empty reject reason was read as "ok" and the connection then dropped)
+    if (respError true [1] msg).isEmpty then some (fin "ok" "closed" "-" "-" "-" wL, false)
     else some (fin "no" "-" "-" "-" "-" wL, true)
   | .ok cL =>
     if fieldOf obs "L" = "no" then some (fin "no" "-" "-" "-" "-" wL, true) else   -- refused after the plugins (auth)
